@@ -380,10 +380,13 @@ def conj_compute_check(k):
             cx.oblige(f"C15.conj{k}.well_formed_members_are_accepted", kind == "return", where=str(getattr(c, "where", "")))
             if kind != "return":
                 return
+            n_ev = len(cx.events)
             kind, out = call_catch(lambda: it.call(c, [x]))
             cx.oblige(f"C15.conj{k}.no_raise", kind == "return", where=str(getattr(out, "where", "")))
             if kind != "return":
                 return
+            # applying a transform stores nothing into it (what it returns may not depend on earlier applications)
+            cx.oblige(f"C15.conj{k}.application_is_stateless", not [e for e in cx.events[n_ev:] if e[0] == "setattr" and e[1]["obj"] is c])
             cx.oblige(f"C15.conj{k}.each_member_runs_once_on_the_input", all(len(m.calls) == 1 and m.calls[0] is x for m in members))
             cx.oblige(f"C15.conj{k}.type", out.cls.name == "Gradients")
             y, cc = cx.fresh_const("y", A.TenS), cx.fresh_int("c")
@@ -411,10 +414,12 @@ def stack_compute_check(k):
             cx.oblige(f"C15.stackc{k}.members_with_one_required_set_are_accepted", kind == "return", where=str(getattr(s, "where", "")))
             if kind != "return":
                 return
+            n_ev = len(cx.events)
             kind, out = call_catch(lambda: it.call(s, [x]))
             cx.oblige(f"C15.stackc{k}.no_raise", kind == "return", where=str(getattr(out, "where", "")))
             if kind != "return":
                 return
+            cx.oblige(f"C15.stackc{k}.application_is_stateless", not [e for e in cx.events[n_ev:] if e[0] == "setattr" and e[1]["obj"] is s])
             cx.oblige(f"C15.stackc{k}.each_member_runs_once_on_the_input", all(len(m.calls) == 1 and m.calls[0] is x for m in members))
             cx.oblige(f"C15.stackc{k}.type", out.cls.name == "Jacobians")
             y, cc = cx.fresh_const("y", A.TenS), cx.fresh_int("c")
